@@ -7,7 +7,7 @@ open DS DS.Req
 
 def reqTun : Tun :=
   { minK := DSGen.req_MIN_K, initSections := DSGen.req_INIT_NUM_SECTIONS, multiplier := DSGen.req_MULTIPLIER,
-    lazy := DSGen.req_LAZY_COMPRESSION }
+    lazy := DSGen.req_LAZY_COMPRESSION, initCoinRandom := DSGen.req_INITIAL_COIN_RANDOM }
 
 def reqFlags : Flags := { iterSkipsEmpty := DSGen.req_ITER_SKIPS_EMPTY, nanRankRejected := DSGen.req_NAN_RANK_REJECTED }
 
